@@ -168,3 +168,9 @@ def campaign(col, tier, seed, shard, nshards):
                 col.add_violation(case, unknown)
     n = 6000 if tier == "quick" else 300000
     hyp_campaign(col, strategy(), run_case, max(n // nshards, 100), seed * 100 + shard)
+    if tier == "thorough":
+        import sys as _sys
+
+        from ..common import fuzz_stage
+
+        fuzz_stage(col, _sys.modules[__name__], 200000 // nshards, seed * 100 + shard)
